@@ -2,6 +2,8 @@
 import itertools
 import random
 
+from fractions import Fraction as Fr
+
 from rv.checks import common
 
 PROP = "C02"
@@ -244,8 +246,24 @@ def run_case(case, ctx):
         return
     tol = 1e-8
 
+    # a floating-point reference underflows where log-space arithmetic does not: with tiny rule weights a MEMBER of
+    # weight 1e-342 has reference weight 0.0 (thorough tier, seed 71).  Membership itself is decided by the Boolean
+    # reference; a member whose reference weight underflowed is not judged.
+    ref_underflow = set()
+    if closed is None and not bool(getattr(O.alg, "exact", False)) and any(0 < abs(w) < Fr(1, 2**30) for w, _, _ in g0["rules"]):
+        try:
+            OB = lib.oracle_for(g, "Boolean")
+            ref_underflow = {x for x in strings if O.isz(want[x]) and OB.weight(x).v}
+        except (cfgref.NotApplicable, cfgref.Singular, cfgref.NoConverge, AttributeError):
+            ref_underflow = set()
+        if ref_underflow:
+            ctx.shape["reference-underflow-on-a-member"] += len(ref_underflow)
+
     def judge(api, x, have, extra=None):
         w = want[x]
+        if x in ref_underflow:
+            ctx.skip(api, "oracle-not-applicable:float-reference-underflow")
+            return
         if O.isz(w) and signed:
             # with negative weights a member's derivations may cancel: zero only up to rounding
             from rv.core import close2
@@ -325,6 +343,16 @@ def run_case(case, ctx):
             # in floating point (thorough tier, seed 51: 1 of 3.7 M decisions); listing it is optional
             optional = {x for x in exp if _c2(lib.want_value(R, want[x]), 0, 0, 1e-12)}
             exp = exp - (optional - got)
+        if R in ("Float", "Real", "Q", "MaxTimes"):
+            # the table is built through the agenda, which ignores updates below 1e-12 (absolute): a member whose weight
+            # is that small (3.9e-17 in a 50-rule MaxTimes grammar, thorough tier, seed 71) may legitimately be absent
+            def _tiny(x):
+                try:
+                    return abs(float(lib.want_value(R, want[x]))) <= 1e-11
+                except (TypeError, ValueError):
+                    return False
+
+            exp = exp - ({x for x in exp if _tiny(x)} - got)
         bad_keys = [k for k in tab if len(k) > n]
         good = got == exp and not bad_keys and all(
             lib.same(R, tab[x], want[x], exact=exact, tol=tol) for x in exp
